@@ -220,7 +220,13 @@ func VH_C17_ArrayCopy() {
 type vByte byte
 
 func (b vByte) Encode(*Encoder) error                  { return nil }
-func (b vByte) ByteSize() uint32                       { return 4 }
+// (value-dependent, like a tagged CBOR uint8: small values take one byte less)
+func (b vByte) ByteSize() uint32 {
+	if b < 24 {
+		return 3
+	}
+	return 4
+}
 func (b vByte) StoredValue(SlabStorage) (Value, error) { return b, nil }
 func (b vByte) ChildStorables() []Storable             { return nil }
 func (b vByte) CanCopyNonRefSimple() bool              { return true }
@@ -229,8 +235,8 @@ func (b vByte) Storable(SlabStorage, Address, uint32) (Storable, error) {
 	return b, nil
 }
 
-//vh:prop C17 C09
-//vh:param n 6 12
+//vh:prop C17 C09 C06
+//vh:param n 4 7
 func VH_C17_Bytes() {
 	vhSetThreshold(256)
 	storage := vhNewBasicStorage()
@@ -286,7 +292,7 @@ func VH_C17_Bytes() {
 // Map copy: offered for single-slab maps of plain values; the copy is valid,
 // equal and independent of the source under mutation of either.
 //
-//vh:prop C17
+//vh:prop C17 C02 C05
 //vh:param keys 3 4
 func VH_C17_MapCopy() {
 	vhSetThreshold(256)
